@@ -197,6 +197,7 @@ func main() {
 		}
 	}
 	c.deadline = time.Now().Add(*budget)
+	witnessCtx = c
 	runFile := func(path string) {
 		f, err := os.Open(path)
 		if err != nil {
